@@ -134,6 +134,28 @@ static void ro_case(cbor_item_t* it) {
   RO("serialized_size", sz = cbor_serialized_size(it));
   RO("serialize", sink += cbor_serialize(it, outbuf, sizeof outbuf));
   RO("serialize_small_buffer", sink += cbor_serialize(it, outbuf, sz / 2));
+  /* cbor_serialize_alloc: its output block comes from outside the (protected) arena */
+  {
+    unsigned char* ob = NULL;
+    size_t obs = 0;
+    va_arena_pause(1);
+    RO("serialize_alloc", sink += cbor_serialize_alloc(it, &ob, &obs));
+    if (ob) va_free(ob);
+    ob = NULL;
+    RO("serialize_alloc_nosize", sink += cbor_serialize_alloc(it, &ob, NULL));
+    if (ob) va_free(ob);
+    /* an item on its way into a container (cbor_move: reference count 0) is still only read */
+    if (cbor_refcount(it) == 1) {
+      ob = NULL;
+      (void)cbor_move(it);
+      RO("serialize_alloc_moved", sink += cbor_serialize_alloc(it, &ob, &obs));
+      RO("serialized_size_moved", sink += cbor_serialized_size(it));
+      RO("serialize_moved", sink += cbor_serialize(it, outbuf, sizeof outbuf));
+      (void)cbor_incref(it);
+      if (ob) va_free(ob);
+    }
+    va_arena_pause(0);
+  }
   int budget = 24;
   walk_nodes(it, &first, &budget);
   fputs("]", vh_out);
